@@ -176,4 +176,399 @@ example : (flattenToIRI (obj "https://e.com/a")).beq (.iri (ascii "https://e.com
 example : ((flattenList [obj "https://e.com/a", .nil, .iri (ascii "http://e.com/a"), obj ""]).map Items.ofList).map
     (fun r => r.beq (Items.ofList [.iri (ascii "https://e.com/a"), .nil, obj ""])) = some true := by decide +kernel
 
+/-! ### the whole function, twice
+
+`Flatten<T>Properties` applied to its own result changes nothing.  The per-position facts are
+`C16_idem_item` and `C16_idem_list`; what is added here is `Flatten` (a single-item position that may
+hold a list and normalises it) and the fold over the rows of the regenerated table.
+
+The statement is about the model's verdicts: a second application never panics, and whenever it has an
+answer inside the modelled domain that answer holds, property by property, what the first result held.
+(`outside` stays possible: a collection object in a flattened position is outside the model both times.)
+The explicit side condition `plainVal` concerns lists sitting in single-item positions: their members
+are items (not lists, not typed nils) that do not flatten to a nil IRI (an id that is "-"), and an
+embedded object there does not either; everything else is unrestricted. -/
+
+def simpleMember (x : Item) : Bool :=
+  match x with
+  | .nil => true
+  | .iri _ => !(flattenToIRI x).isNilLike
+  | .node _ _ _ => !(flattenToIRI x).isNilLike
+  | _ => false
+
+def plainVal : FVal → Bool
+  | .item (.coll _ l) => l.toList.all simpleMember
+  | .item (.iris l) => l.all (fun s => simpleMember (.iri s))
+  | .item (.node k p fs) => simpleMember (.node k p fs)
+  | _ => true
+
+theorem toList_ofList (l : List Item) : (Items.ofList l).toList = l := by
+  induction l with
+  | nil => rfl
+  | cons a r ih => simp [Items.ofList, Items.toList, ih]
+
+/-- what a value in a flattened position looks like once the function has been there -/
+def ValFix (fn : String) (v : FVal) : Prop :=
+  flattenFVal fn v = .ok v ∨ flattenFVal fn v = .outside
+
+theorem flatten_iri_fix (s : Str) (hn : (Item.iri s).isNilLike = false) : flatten (.iri s) = .ok (.iri s) := by
+  unfold flatten
+  simp only [hn, Bool.false_eq_true, if_false]
+  rw [C16_iri_stays]
+
+theorem flatten_node_fix (k : Kind) (p : Bool) (fs : Fields) (hf : flattenToIRI (.node k p fs) = .node k p fs) :
+    flatten (.node k p fs) = .ok (.node k p fs) ∨ flatten (.node k p fs) = .outside := by
+  unfold flatten
+  simp only [Item.isNilLike, Bool.false_eq_true, if_false]
+  split
+  · exact Or.inr rfl
+  · exact Or.inl (by rw [hf])
+
+/-- a flattened simple member is a fixpoint of `Flatten` -/
+theorem flatten_simple_fix (y : Item) (hs : simpleMember y = true) (hn : flattenToIRI y ≠ .nil) :
+    flatten (flattenToIRI y) = .ok (flattenToIRI y) ∨ flatten (flattenToIRI y) = .outside := by
+  rcases C16_no_new_iri y with h | h
+  · cases y with
+    | node k p fs => rw [h]; exact flatten_node_fix k p fs h
+    | iri s =>
+      rw [h]
+      refine Or.inl (flatten_iri_fix s ?_)
+      simpa [simpleMember, h] using hs
+    | nil => exact absurd h hn
+    | _ => simp [simpleMember] at hs
+  · rw [h]
+    refine Or.inl (flatten_iri_fix _ ?_)
+    cases y with
+    | nil => simp [flattenToIRI, Item.isNilLike] at h
+    | iri s => simpa [simpleMember, h] using hs
+    | node k p fs => simpa [simpleMember, h] using hs
+    | _ => simp [simpleMember] at hs
+
+theorem flattenList_simple (h : IsEquiv iriEqv) (l l' : List Item) (hl : flattenList l = some l')
+    (hs : l.all simpleMember = true) : ∀ x ∈ l', ∃ y ∈ l, simpleMember y = true ∧ x = flattenToIRI y := by
+  rw [C16_list h l] at hl
+  cases hl
+  intro x hx
+  obtain ⟨y, hy, rfl⟩ := List.mem_map.mp hx
+  have hyl := (specCol_sublist iriEqv dedupKey l []).1.subset hy
+  exact ⟨y, hyl, List.all_eq_true.mp hs y hyl, rfl⟩
+
+theorem flatten_normalize_fix (h : IsEquiv iriEqv) (l l' : List Item) (hl : flattenList l = some l')
+    (hs : l.all simpleMember = true) (hn : normalize l' ≠ .nil) :
+    flatten (normalize l') = .ok (normalize l') ∨ flatten (normalize l') = .outside := by
+  match l', hl, hn with
+  | [], _, hn => simp [normalize] at hn
+  | [x], hl, hn =>
+    obtain ⟨y, _, hy, rfl⟩ := flattenList_simple h l _ hl hs x (by simp)
+    exact flatten_simple_fix y hy (by simpa [normalize] using hn)
+  | a :: b :: r, hl, _ =>
+    simp only [normalize]
+    unfold flatten
+    simp only [Item.isNilLike, Bool.false_eq_true, if_false, toList_ofList]
+    split
+    · exact Or.inr rfl
+    · rw [C16_idem_list h l _ hl]
+      exact Or.inl rfl
+
+/-- `Flatten` on its own result -/
+theorem flatten_fix (h : IsEquiv iriEqv) (i j : Item) (hp : plainVal (.item i) = true)
+    (hj : flatten i = .ok j) (hjn : j ≠ .nil) : flatten j = .ok j ∨ flatten j = .outside := by
+  cases i with
+  | nil => simp [flatten, Item.isNilLike] at hj; exact absurd hj.symm hjn
+  | typedNil _ => simp [flatten, Item.isNilLike] at hj; exact absurd hj.symm hjn
+  | collNil _ => simp [flatten, Item.isNilLike] at hj; exact absurd hj.symm hjn
+  | irisNil => simp [flatten, Item.isNilLike] at hj; exact absurd hj.symm hjn
+  | iri s =>
+    by_cases hn : (Item.iri s).isNilLike = true
+    · simp [flatten, hn] at hj; exact absurd hj.symm hjn
+    · have hn' : (Item.iri s).isNilLike = false := by simpa using hn
+      rw [flatten_iri_fix s hn'] at hj
+      cases hj
+      exact Or.inl (flatten_iri_fix s hn')
+  | iris l =>
+    simp only [flatten, Item.isNilLike, Bool.false_eq_true, if_false] at hj
+    cases hl : flattenList (l.map Item.iri) with
+    | none => simp [hl] at hj
+    | some l' =>
+      simp only [hl] at hj
+      cases hj
+      exact flatten_normalize_fix h _ _ hl (by simpa [plainVal, List.all_map, Function.comp_def] using hp) hjn
+  | coll p l =>
+    simp only [flatten, Item.isNilLike, Bool.false_eq_true, if_false] at hj
+    split at hj
+    · cases hj
+    · cases hl : flattenList l.toList with
+      | none => simp [hl] at hj
+      | some l' =>
+        simp only [hl] at hj
+        cases hj
+        exact flatten_normalize_fix h _ _ hl (by simpa [plainVal] using hp) hjn
+  | node k p fs =>
+    simp only [flatten, Item.isNilLike, Bool.false_eq_true, if_false] at hj
+    split at hj
+    · cases hj
+    · cases hj
+      rcases C16_no_new_iri (.node k p fs) with e | e
+      · rw [e]; exact flatten_node_fix k p fs e
+      · rw [e]
+        refine Or.inl (flatten_iri_fix _ ?_)
+        simpa [plainVal, simpleMember, e] using hp
+
+theorem fval_Flatten_ok (i j : Item) (hf : flatten i = .ok j) (hjn : j ≠ .nil) :
+    flattenFVal "Flatten" (.item i) = .ok (.item j) := by
+  unfold flattenFVal
+  cases j <;> simp_all
+
+theorem fval_Flatten_outside (i : Item) (hf : flatten i = .outside) :
+    flattenFVal "Flatten" (.item i) = .outside := by
+  unfold flattenFVal
+  simp only [hf]
+
+/-- a value a row has produced is a fixpoint of that row's function (or outside the model) -/
+theorem val_fix (h : IsEquiv iriEqv) (fn : String) (v v' : FVal) (hp : plainVal v = true)
+    (hv : flattenFVal fn v = .ok v') (hnn : v' ≠ .item .nil) : ValFix fn v' := by
+  unfold ValFix
+  unfold flattenFVal at hv
+  split at hv
+  · cases hv
+    exact Or.inl (by simp [flattenFVal, C16_idem_item])
+  · rename_i i
+    cases hf : flatten i with
+    | ok j =>
+      by_cases hjn : j = .nil
+      · subst hjn
+        simp only [hf] at hv
+        cases hv
+        exact absurd rfl hnn
+      · have hv' : v' = .item j := by
+          simp only [hf] at hv
+          cases j <;> simp_all
+        subst hv'
+        rcases flatten_fix h i j hp hf hjn with e | e
+        · exact Or.inl (fval_Flatten_ok j j e hjn)
+        · exact Or.inr (fval_Flatten_outside j e)
+    | panic => simp [hf] at hv
+    | outside => simp [hf] at hv
+  · rename_i l
+    split at hv
+    · cases hv
+    · rename_i hty
+      cases hl : flattenList l.toList with
+      | none => simp [hl] at hv
+      | some l' =>
+        simp only [hl] at hv
+        cases hv
+        unfold flattenFVal
+        simp only [toList_ofList]
+        split
+        · exact Or.inr rfl
+        · rw [C16_idem_list h _ _ hl]
+          exact Or.inl rfl
+  · cases hv
+
+/-- the state of a row's position after the function has been there: unset, or holding a fixpoint -/
+def RowFix (fs : Fields) (row : String × String) : Prop :=
+  fs.get? row.1 = none ∨ ∃ v, fs.get? row.1 = some v ∧ v ≠ .item .nil ∧ ValFix row.2 v
+
+theorem rowFix_congr (fs fs' : Fields) (row : String × String) (he : fs'.get? row.1 = fs.get? row.1)
+    (hr : RowFix fs row) : RowFix fs' row := by
+  unfold RowFix at *
+  rw [he]; exact hr
+
+/-- applying a row establishes its fixpoint state -/
+theorem applyRow_establishes (h : IsEquiv iriEqv) (fs fs' : Fields) (row : String × String)
+    (hp : ∀ v, fs.get? row.1 = some v → plainVal v = true)
+    (ha : applyRow fs row = .ok fs') : RowFix fs' row := by
+  unfold applyRow at ha
+  cases hg : fs.get? row.1 with
+  | none =>
+    simp only [hg] at ha
+    cases ha
+    exact Or.inl hg
+  | some v =>
+    simp only [hg] at ha
+    cases hv : flattenFVal row.2 v with
+    | ok v' =>
+      by_cases hnn : v' = .item .nil
+      · subst hnn
+        simp only [hv] at ha
+        cases ha
+        exact Or.inl (get_erase_same _ _)
+      · have : fs' = fs.set row.1 v' := by
+          simp only [hv] at ha
+          cases ha; rfl
+        subst this
+        exact Or.inr ⟨v', get_set_same _ _ _, hnn, val_fix h row.2 v v' (hp v hg) hv hnn⟩
+    | panic => simp [hv] at ha
+    | outside => simp [hv] at ha
+
+/-- a row applied to a position in its fixpoint state changes nothing and does not panic -/
+theorem applyRow_fixed (fs : Fields) (row : String × String) (hr : RowFix fs row) :
+    (applyRow fs row = .outside ∨ ∃ fs', applyRow fs row = .ok fs' ∧ ∀ m, fs'.get? m = fs.get? m) := by
+  unfold applyRow
+  rcases hr with hn | ⟨v, hg, hnn, hv | hv⟩
+  · simp only [hn]
+    exact Or.inr ⟨fs, rfl, fun _ => rfl⟩
+  · simp only [hg, hv]
+    refine Or.inr ⟨fs.set row.1 v, rfl, ?_⟩
+    · intro m
+      by_cases hm : m = row.1
+      · subst hm; rw [get_set_same, hg]
+      · exact get_set_other _ _ _ _ hm
+  · simp [hg, hv]
+
+/-- after the rows have run, every row's position is in its fixpoint state.  A position may be visited
+more than once as long as it is by the same function (the code flattens `result` twice). -/
+theorem applyRows_establishes (h : IsEquiv iriEqv) (rows : List (String × String)) :
+    ∀ (fs fs' : Fields) (done : List (String × String)),
+    (∀ r ∈ done, RowFix fs r) → (∀ x ∈ done, ∀ r' ∈ rows, x.1 ≠ r'.1 ∨ x = r') →
+    rows.Pairwise (fun a b => a.1 ≠ b.1 ∨ a = b) →
+    (∀ r ∈ rows, r ∉ done → ∀ v, fs.get? r.1 = some v → plainVal v = true) →
+    applyRows fs rows = .ok fs' → ∀ r ∈ done ++ rows, RowFix fs' r := by
+  induction rows with
+  | nil =>
+    intro fs fs' done hd _ _ _ ha
+    simp only [applyRows] at ha
+    cases ha
+    simpa using hd
+  | cons r rs ih =>
+    intro fs fs' done hd hdis hpw hp ha
+    simp only [applyRows] at ha
+    have hpw' := List.pairwise_cons.mp hpw
+    cases h1 : applyRow fs r with
+    | ok fs1 =>
+      simp only [h1] at ha
+      by_cases hmem : r ∈ done
+      · -- visited before by the same function: nothing changes
+        rcases applyRow_fixed fs r (hd r hmem) with e | ⟨fs1', e, hsame⟩
+        · rw [e] at h1; cases h1
+        · rw [e] at h1; cases h1
+          have := ih fs1 fs' done
+            (fun x hx => rowFix_congr fs fs1 x (hsame _) (hd x hx))
+            (fun x hx r' hr' => hdis x hx r' (List.mem_cons_of_mem _ hr'))
+            hpw'.2
+            (fun r' hr' hnd v hg => hp r' (List.mem_cons_of_mem _ hr') hnd v (by rw [← hsame]; exact hg))
+            ha
+          intro x hx
+          rcases List.mem_append.mp hx with hx | hx
+          · exact this x (List.mem_append_left _ hx)
+          · rcases List.mem_cons.mp hx with rfl | hx
+            · exact this x (List.mem_append_left _ hmem)
+            · exact this x (List.mem_append_right _ hx)
+      · have hne : ∀ x ∈ done, x.1 ≠ r.1 := by
+          intro x hx
+          rcases hdis x hx r List.mem_cons_self with e | e
+          · exact e
+          · subst e; exact absurd hx hmem
+        have := ih fs1 fs' (done ++ [r])
+          (by
+            intro x hx
+            rcases List.mem_append.mp hx with hx | hx
+            · exact rowFix_congr fs fs1 x (applyRow_frame fs fs1 r x.1 (hne x hx) h1) (hd x hx)
+            · have : x = r := by simpa using hx
+              subst this
+              exact applyRow_establishes h fs fs1 x (hp x List.mem_cons_self hmem) h1)
+          (by
+            intro x hx r' hr'
+            rcases List.mem_append.mp hx with hx | hx
+            · exact hdis x hx r' (List.mem_cons_of_mem _ hr')
+            · have : x = r := by simpa using hx
+              subst this
+              exact hpw'.1 r' hr')
+          hpw'.2
+          (by
+            intro r' hr' hnd v hg
+            have hnr : r' ≠ r := by intro e; subst e; exact hnd (by simp)
+            have hn1 : r.1 ≠ r'.1 := by
+              rcases hpw'.1 r' hr' with e | e
+              · exact e
+              · exact absurd e.symm hnr
+            rw [applyRow_frame fs fs1 r r'.1 (Ne.symm hn1) h1] at hg
+            exact hp r' (List.mem_cons_of_mem _ hr') (fun hc => hnd (List.mem_append_left _ hc)) v hg)
+          ha
+        intro x hx
+        exact this x (by simpa using hx)
+    | panic => simp [h1] at ha
+    | outside => simp [h1] at ha
+
+/-- rows applied to fields where each of their positions is in its fixpoint state -/
+theorem applyRows_fixed (rows : List (String × String)) :
+    ∀ fs : Fields, (∀ r ∈ rows, RowFix fs r) →
+    (applyRows fs rows = .outside ∨ ∃ fs', applyRows fs rows = .ok fs' ∧ ∀ m, fs'.get? m = fs.get? m) := by
+  induction rows with
+  | nil => intro fs _; exact Or.inr ⟨fs, rfl, fun _ => rfl⟩
+  | cons r rs ih =>
+    intro fs hr
+    simp only [applyRows]
+    rcases applyRow_fixed fs r (hr r List.mem_cons_self) with e | ⟨fs1, e, hsame⟩
+    · simp [e]
+    · simp only [e]
+      rcases ih fs1 (fun x hx => rowFix_congr fs fs1 x (hsame _) (hr x (List.mem_cons_of_mem _ hx))) with e2 | ⟨fs2, e2, hs2⟩
+      · exact Or.inl e2
+      · exact Or.inr ⟨fs2, e2, fun m => by rw [hs2, hsame]⟩
+
+/-- **Flattening the properties of a value twice equals flattening them once**: for any table of rows
+whose positions are distinct (or visited again by the same function), any fields, if the function answers `fs'`, then run on `fs'` it never panics,
+and any answer it gives holds in every property exactly what `fs'` holds. -/
+theorem C16_idem_rows (h : IsEquiv iriEqv) (rows : List (String × String))
+    (hpw : rows.Pairwise (fun a b => a.1 ≠ b.1 ∨ a = b)) (fs fs' : Fields)
+    (hp : ∀ r ∈ rows, ∀ v, fs.get? r.1 = some v → plainVal v = true)
+    (ha : applyRows fs rows = .ok fs') :
+    applyRows fs' rows ≠ .panic ∧ ∀ fs'', applyRows fs' rows = .ok fs'' → ∀ m, fs''.get? m = fs'.get? m := by
+  have hfix := applyRows_establishes h rows fs fs' [] (by simp) (by simp) hpw (fun r hr _ => hp r hr) ha
+  rcases applyRows_fixed rows fs' (fun r hr => hfix r (by simpa using hr)) with e | ⟨fs2, e, hs⟩
+  · rw [e]; exact ⟨by simp, by intro _ hc; cases hc⟩
+  · rw [e]; exact ⟨by simp, by intro fs'' hc; cases hc; exact hs⟩
+
+def distinctNames : List (String × String) → Bool
+  | [] => true
+  | r :: rs => rs.all (fun x => x.1 != r.1 || x == r) && distinctNames rs
+
+theorem distinctNames_pairwise : ∀ rows, distinctNames rows = true → rows.Pairwise (fun a b => a.1 ≠ b.1 ∨ a = b)
+  | [], _ => List.Pairwise.nil
+  | r :: rs, h => by
+    simp only [distinctNames, Bool.and_eq_true, List.all_eq_true, Bool.or_eq_true, bne_iff_ne, ne_eq, beq_iff_eq] at h
+    refine List.pairwise_cons.mpr ⟨fun x hx => ?_, distinctNames_pairwise rs h.2⟩
+    rcases h.1 x hx with e | e
+    · exact Or.inl (Ne.symm e)
+    · exact Or.inr e.symm
+
+/-- obligation on the regenerated table: no Flatten…Properties function visits a position with two
+different flattening functions -/
+theorem C16_table_distinct :
+    (["FlattenObjectProperties", "FlattenActorProperties", "FlattenIntransitiveActivityProperties",
+      "FlattenActivityProperties"].all (fun fn => distinctNames (rowsOf flattenRows 4 fn))) = true := by
+  decide
+
+/-- C16's "flattening twice equals flattening once" for the code's own four functions -/
+theorem C16_idem_props (h : IsEquiv iriEqv) (fn : String)
+    (hfn : fn ∈ ["FlattenObjectProperties", "FlattenActorProperties", "FlattenIntransitiveActivityProperties",
+      "FlattenActivityProperties"]) (fs fs' : Fields)
+    (hp : ∀ r ∈ rowsOf flattenRows 4 fn, ∀ v, fs.get? r.1 = some v → plainVal v = true)
+    (ha : flattenProps flattenRows fn fs = .ok fs') :
+    flattenProps flattenRows fn fs' ≠ .panic ∧
+    ∀ fs'', flattenProps flattenRows fn fs' = .ok fs'' → ∀ m, fs''.get? m = fs'.get? m := by
+  have hd := List.all_eq_true.mp C16_table_distinct fn hfn
+  exact C16_idem_rows h _ (distinctNames_pairwise _ hd) fs fs' hp ha
+
+/-! non-vacuity of `C16_idem_props`: an activity whose actor is embedded, whose attributedTo is a list of
+two embedded objects and whose `to` names one addressee twice has an answer, meets the side condition,
+and the answer is reproduced by a second run (the last line is a test on this one value, not the theorem) -/
+private def sampleAct : Fields :=
+  .cons "ID" (.str (ascii "https://e.com/act/1")) (.cons "Type" (.str (ascii "Create"))
+  (.cons "Actor" (.item (obj "https://e.com/~a"))
+  (.cons "AttributedTo" (.item (.coll false (Items.ofList [obj "https://e.com/~a", obj "https://e.com/~b"])))
+  (.cons "To" (.items (Items.ofList [obj "https://e.com/~c", .iri (ascii "https://e.com/~c"), .iri (ascii "https://e.com/~d")]))
+  .nil))))
+private def resOk : Res Fields → Option Fields
+  | .ok fs => some fs
+  | _ => none
+example : ((rowsOf flattenRows 4 "FlattenActivityProperties").all (fun r =>
+    match sampleAct.get? r.1 with
+    | some v => plainVal v
+    | none => true)) = true := by decide +kernel
+example : ((resOk (flattenProps flattenRows "FlattenActivityProperties" sampleAct)).bind
+    (fun fs' => (resOk (flattenProps flattenRows "FlattenActivityProperties" fs')).map (fun fs'' =>
+      fs'.beq fs'' && !(fs'.beq sampleAct)))) = some true := by decide +kernel
+
 end APModel.Flatten
